@@ -265,8 +265,17 @@ def run(ctx):
         recv = strip_refs(m.trace(rt["args"][0]))
         from_stdin = expr_mentions(recv, lambda x: x[0] == "call" and x[1] and x[1]["path"] == "std::io::stdin")
         ctx.check(from_stdin, "K3.reads-stdin", "the reader is std::io::stdin()", "read_to_string is applied to %s" % show_expr(recv), where=m.where(rbi), fn=m.key)
-        buf = m.trace(rt["args"][1])
-        buf_is_data = expr_mentions(buf, lambda x: x[0] in ("phi", "partial") and x[1] == data_local)
+        if len(rt["args"]) >= 2:
+            buf = m.trace(rt["args"][1])
+            buf_is_data = expr_mentions(buf, lambda x: x[0] in ("phi", "partial") and x[1] == data_local)
+        else:
+            # free function std::io::read_to_string(reader) -> Result<String>: its success payload is assigned to the data text
+            buf = ("call", None, [], rbi)
+            buf_is_data = False
+            for dd in defs:
+                ex_ = strip_payload(m._trace_def(dd, 0, frozenset()))
+                if ex_[0] == "call" and ex_[3] == rbi:
+                    buf_is_data = True
         ctx.check(buf_is_data, "K3.stdin-into-data", "the stdin text becomes the data text", "read_to_string fills %s" % show_expr(buf), where=m.where(rbi), fn=m.key)
     # the argument form: data = data_arg.to_string() on the other edge
     arg_def = None
